@@ -545,6 +545,11 @@ func init() {
 			return "", err
 		}
 		sb.WriteString(sh)
+		r8, err := c04Round8(repo)
+		if err != nil {
+			return "", err
+		}
+		sb.WriteString(r8)
 		return sb.String(), nil
 	}})
 }
